@@ -4,6 +4,7 @@ import (
 	crand "crypto/rand"
 	"encoding/json"
 	"fmt"
+	"github.com/privacybydesign/gabi/verifhooks"
 	"io"
 	"math/rand/v2"
 	"sort"
@@ -398,6 +399,8 @@ var extremeMu sync.Mutex
 func extremeDraws(maxReads int, f func(desc string, hit func() bool)) {
 	extremeMu.Lock()
 	defer extremeMu.Unlock()
+	// the library's fast generator keys itself from crypto/rand on first use: make that happen on genuine randomness
+	verifhooks.FastRandomBigInt(pow2(64))
 	orig := crand.Reader
 	defer func() { crand.Reader = orig }()
 	for target := 1; target <= maxReads; target++ {
